@@ -7,7 +7,7 @@ for p in "$@"; do
   for d in seeded/$p-*; do
     [ -f $d/patch.diff ] || continue
     n=$(basename $d)
-    python3 tools/seedcheck.py $p $d $n --keep --reuse-validation > /tmp/seedres_$n.json 2>&1
+    python3 tools/seedcheck.py $p "$PWD/$d" $n --keep --reuse-validation > /tmp/seedres_$n.json 2>&1
     python3 - $n <<'PY'
 import json, sys
 try:
